@@ -9,7 +9,7 @@ VRPTW
     anomalies(snap)          -> {key: detail}     bookkeeping anomalies of one state; keys are
                                                   hashable and comparable between two states
     arrivals(snap, route)    -> [t]               recomputation from travel / waiting / service
-    objective(snap, weights) -> (value, magnitude) documented weighted sum of that state
+    objective(snap, weights) -> (value, magnitude, parts) documented weighted sum of that state
     KEY_CLASS                                      anomaly key kind -> violation class suffix
 """
 
@@ -202,7 +202,7 @@ def anomalies(snap):
 def objective(snap, weights=None):
     """Documented weighted sum (vrp_objective) of the state, from recomputed arrival times.
 
-    Returns (value, magnitude) where magnitude = sum of |terms| (for the float tolerance)."""
+    Returns (value, magnitude, parts) where magnitude = sum of |terms| (for the float tolerance)."""
     w = dict(DEFAULT_WEIGHTS)
     if weights:
         w.update(weights)
